@@ -12,14 +12,16 @@ RULE = ("(A) ecdsa_raw_recover with the module constants replaced by every prime
         "[0,N+1] x 7 hashes, outcome compared with an affine model (raise / exact point / "
         "identity) - all distinct, non-trivial unless refused for v alone; (B) real constants, "
         "Hypothesis over structured (v,r,s,hash): non-trivial = accepted case not produced by "
-        "ecdsa_raw_sign (arbitrary s, high-s twin, r >= N) or a refusal for a reason other than v")
+        "ecdsa_raw_sign (arbitrary s, high-s twin, r >= N; s chosen so that the two summands s*R and -z*G are equal, "
+        "opposite or +-lambda-multiples of each other, i.e. share or negate their y) or a refusal for a reason other than v")
 ASSUMPTIONS = ["affine model and textbook ECDSA in vf/model/secp.py",
                "tiny-curve substitution replaces module attributes at run time; tiny primes are "
                "3 mod 4 because the library's square root is x^((P+1)/4)"]
 ENGINE = "exhaustive enumeration on substituted tiny curves + hypothesis on the real curve"
 TECHNIQUE = ("exhaustive enumeration of (v, r, s, z) on substituted tiny curves + structured property-based testing (Hypothesis) on the real curve against an independent recovery model")
 REQUIRED_LABELS = {t: ["B:accept", "B:raise:v", "B:raise:r=0modN", "B:raise:s=0modN",
-                       "B:raise:not_x", "B:accept:r>=N", "B:accept:high_s", "A:accept", "A:identity",
+                       "B:raise:not_x", "B:accept:r>=N", "B:accept:high_s", "B:accept:summands_related:lambda", "B:accept:summands_related:1",
+                       "B:accept:summands_related:-1", "A:accept", "A:identity",
                        "A:raise"] for t in ("quick", "thorough")}
 N, P = params.SECP_N, params.SECP_P
 VS = (0, 1, 26, 27, 28, 29, 35, 36)
@@ -143,6 +145,8 @@ def o_real(ctx, case):
                     ctx.label("B:openssl_verifies")
                 except Exception as e:  # noqa
                     raise HarnessError(f"OpenSSL rejects a signature the model accepts: {e!r}")
+    if str(case.get("origin", "")).startswith("related") and oc == "accept":
+        ctx.label("B:accept:summands_" + case["origin"])
     if nontriv:
         ctx.nontrivial(("real", case["h"], v, r, s))
     ctx.sample(case, "real:" + oc)
@@ -166,6 +170,8 @@ HASHES = [b"\x00" * 32, b"\xff" * 32, (N - 1).to_bytes(32, "big"), N.to_bytes(32
           (N + 1).to_bytes(32, "big"), P.to_bytes(32, "big"), (2 ** 256 - 1).to_bytes(32, "big"),
           b"", b"\x01"]
 S_SPECIAL = [0, 1, 2, (N - 1) // 2, (N + 1) // 2, N - 1, N, N + 1, 2 * N, 2 * N + 5]
+LAMS = nt.cube_roots_of_unity(N)
+S_SPECIAL += [x for x in nt.endo_scalars(N) if x >= 0][:40]
 
 
 @st.composite
@@ -174,7 +180,21 @@ def s_case(draw):
                        st.binary(max_size=64)))
     v = draw(st.one_of(st.sampled_from([27, 28, 27, 28]), st.sampled_from(VS)))
     origin = draw(st.sampled_from(["honest", "twin", "valid_x", "valid_x", "invalid_x", "special",
-                                   "r_plus_N", "random"]))
+                                   "r_plus_N", "random", "related"]))
+    if origin == "related":
+        # the two points that recovery adds, s*R and -z*G, in a special relation: equal (c = 1), opposite
+        # (c = -1), or images of each other under (x, y) -> (beta x, +-y) (c = +-lambda: same or opposite y,
+        # different x)
+        k = draw(scalar_in(1, N - 1))
+        z = int.from_bytes(h, "big") % N
+        if z == 0:
+            h = b"\x07" * 32
+            z = int.from_bytes(h, "big") % N
+        R = SECP.mul(SECP.g, k)
+        c = draw(st.sampled_from([1, -1] + LAMS + [-x for x in LAMS]))
+        r, s = R[0], c * (-z) * nt.inv_mod(k, N) % N
+        v = 27 + R[1] % 2 if draw(st.integers(0, 5)) else v
+        return {"h": hx(h), "v": v, "r": r, "s": s, "origin": f"related:{'lambda' if abs(c) > 1 else c}"}
     if origin in ("honest", "twin"):
         d = draw(scalar_in(1, N - 1))
         k = kdf.rfc6979_first_candidate_raw(d.to_bytes(32, "big"), h) % N or 1
@@ -216,6 +236,12 @@ def t_real(ctx, shard, n):
             for r in (0, 1, N - 1, N, N + 1, P - 1, gx, _invalid_x(5)):
                 for s in (0, 1, (N - 1) // 2, (N + 1) // 2, N - 1, N, N + 1):
                     ex.append({"h": hx(HASHES[v % len(HASHES)]), "v": v, "r": r, "s": s, "origin": "grid"})
+        for i, c in enumerate([1, -1] + LAMS + [-x for x in LAMS]):
+            k, hh = 5 + i, bytes([0x35 + i]) * 32
+            Rk = SECP.mul(SECP.g, k)
+            ex.append({"h": hx(hh), "v": 27 + Rk[1] % 2, "r": Rk[0],
+                       "s": c * (-int.from_bytes(hh, "big")) * nt.inv_mod(k, N) % N,
+                       "origin": f"related:{'lambda' if abs(c) > 1 else c}"})
     drive(ctx, f"real{shard}", s_case(), lambda c: o_real(ctx, c), n, ex)
 
 
